@@ -847,7 +847,7 @@ def run_component(chk, tier, seed):
     rng = C.Rng(seed)
     cases = load_corpus()
     cases += gen_exhaustive(tier, rng)
-    cases += gen_random(tier, rng, 1000 if tier == "quick" else 30000)
+    cases += gen_random(tier, rng, 450 if tier == "quick" else 30000)
     if not model_ok:
         chk.oblige("comp corr:model available", False)
         return {"cases": 0}
